@@ -95,8 +95,7 @@ def instances(cls, limit=40):
         except Exception:  # noqa: BLE001
             pass
     if len(out) > limit:
-        step = max(1, len(out) // limit)
-        out = out[::step][:limit] + out[:6]
+        out = trees.thin(out, limit, seed=len(out)) + out[:6]
     return out
 
 
